@@ -44,6 +44,30 @@ CLAIMED = {
 	"C20": ("runtime monitor: repr output parser (footer, dtype tokens, body rows, header) + totality/purity observer applied to results of other workloads",
 		"Held on every execution explored: the length x limit x width grid for vectors and tables (set_repr_rows and per-table overrides, 1-12 columns), hostile values of every dtype, 10^4-element vectors, 0-25 columns, and every result of the arithmetic / None / join / aggregate / sort / CSV workloads observed for totality and purity.",
 		"Body content compared for simple cells only; odd limits judged against the effective limit.", "DESIGN.md §4 C20"),
+	"C01": ("runtime monitor: frame-condition oracle over an object-pool history machine (snapshots of every live handle after every step) + directed derivation x write matrix",
+		"Held on every execution explored: every (derivation, write form, side written) triple of a 19 x 14 x 2 matrix and sampled histories of <=12 simultaneously live vectors / tables / column views / rows with construct, derive, view, write, rename, read-only (incl. failing) and lifetime operations; after every step every handle outside the writer's may-change set is compared with its snapshot.",
+		"May-change sets come from provenance (which handle is a live column of which table), not from object identity; snapshots ignore internal caches.", "DESIGN.md §4 C01"),
+	"C02": ("runtime monitor: rectangularity / row-vs-column invariant evaluated on every live table at every quiescent point of pool histories + list-model oracle for structural operations",
+		"Held on every execution explored: all shapes 0-3 x 0-3 through 17 structural operations (incl. ragged and wrong-length requests) against list models, and the invariant on every live table after every step of sampled histories (joins, sorts, transposes, cell/row/column/region/attribute writes, failing operations).",
+		"Tables whose columns are themselves tables are not judged; ragged requests may raise or return a non-Table.", "DESIGN.md §4 C02"),
+	"C03": ("runtime monitor: universal truthfulness observer (lattice belongs-to + write-back probe) attached to the results of nine other workloads, pool histories and a weak-point matrix",
+		"Held on every vector observed: results of the C05/C06/C07/C09/C10/C12/C13/C14/C19 workloads, every pooled vector and column after every history step, a 43-operation x 8-kind weak-point matrix and multi-value assignments with promotion / None / incompatible values at each position; each also probed by writing elements back on a copy.",
+		"isinstance counts as belonging; schema-less (empty) vectors claim nothing; Row objects are not judged.", "DESIGN.md §4 C03"),
+	"C08": ("runtime fault enumeration: list-assignment + promotion-lattice oracle with exceptional postcondition (state unchanged after any failure), faulty iterables raising in __iter__/__next__/__len__",
+		"Held on every execution explored: 9 key forms x 5 value forms x 9 column kinds x value-class patterns with every fault position k and pairs j<k, wrong lengths / mask lengths / out-of-range indices at every position / unsupported keys, exceptions while the value is consumed, table cell/row/column/region assignment with faults, rename_columns with the failing name at every position.",
+		"Atomicity judged per vector and for rename_columns; bool-column widening may promote or reject; contents compared modulo documented widening.", "DESIGN.md §4 C08"),
+	"C15": ("runtime monitor: hooks on Vector.__init__ (census of live vectors) and on the alias tracker's register/unregister (shadow index walked after every step), identity-reuse attack, ground-truth judgement of every AliasError",
+		"Held on every execution explored: pool histories biased to shared tuples, storage-swapping table paths, promotions, drops, cycles and gc placement; directed bursts over widths 1-8 followed by floods of fresh same-width vectors; sharing scenarios with 2-3 sharers. Every refusal was justified by a live sharer; no stale registration could be turned into a refusal.",
+		"Behavioural verdict: stale registrations that cannot be realised as a refusal are evidence only; zero-length vectors excluded.", "DESIGN.md §4 C15"),
+	"C16": ("runtime monitor: freshness oracle (fingerprint of an object rebuilt from current contents) at every quiescent point + single-position sensitivity by hash arithmetic",
+		"Held on every execution explored: write path x cached-before x object kind x dtype matrix for vectors and tables (views, cells, rows, columns, regions, attribute assignment, promotion), swap and read-only probes, and freshness of every pooled object after every history step.",
+		"Hash-equal pairs modulo 2^61-1 exempt from sensitivity; the library's own fingerprint on a rebuilt object is the freshness reference.", "DESIGN.md §4 C16"),
+	"C17": ("runtime monitor: positional-identity oracle (cell (r,i) = 100*i+r) over advertised accessors from dir() and the repr dot row, rename/replace/append histories",
+		"Held on every execution explored: all ordered pairs over a 40-name dictionary, sampled lists up to width 12 with forced duplicates, and histories of rename_column(s), rename through a live view, attribute replacement and >> with dir()/repr() interleaved; every advertised name checked through getattr, t[0,name]=x, t[0].name and t[stored name].",
+		"Identifier = str.isidentifier(); disambiguation scheme free; sanitisation equality only where the documented rule is unambiguous.", "DESIGN.md §4 C17"),
+	"C18": ("runtime monitor: name-propagation rule table applied to operands' actual names after every operation of random compositions; aggregate/window name matching",
+		"Held on every execution explored: sampled compositions (depth 1-4) of vector/vector math and comparisons, name-keeping vector operations, table/scalar and table/table arithmetic, table builders, row selection, sorts and joins; aggregate and window naming with repeated columns, same-named keys and colliding apply names.",
+		"Vector/scalar, unary, cast/fill/drop and << not judged; output order of aggregates not judged.", "DESIGN.md §4 C18"),
 }
 
 PENDING_REASON = "check not yet registered in this commit (under construction; runtime monitoring does apply - see DESIGN.md §4)"
